@@ -3,5 +3,5 @@ CONSTANTS
   WMax = 4
   Mutant = "none"
 SPECIFICATION Spec
-INVARIANTS PaintsByTheAreas AreasDocumented RowsOrdered StrokeSides
+INVARIANTS PaintsByTheAreas AreasDocumented RowsOrdered StrokeSides MachineIsClosedForm
 CHECK_DEADLOCK FALSE
